@@ -1402,11 +1402,11 @@ def _formula_atoms(f, out):
                 _formula_atoms(x, out)
 
 
-def outcome_deps(st, v):
+def outcome_deps(st, v, n_facts0=0, n_teq0=0):
     """Leaves the outcome depends on: through its value (data) and through the decisions taken on
-    the path (control)."""
+    the path (control).  Facts assumed about the arguments before the call are not dependences."""
     out = value_deps(v)
-    for k, p in st.lin.facts:
+    for k, p in st.lin.facts[n_facts0:]:
         for a_ in p.atoms():
             if isinstance(a_, str):
                 out.add(a_)
@@ -1414,7 +1414,7 @@ def outcome_deps(st, v):
     for (x, y, _) in st.tne:
         leaves_of(x, out)
         leaves_of(y, out)
-    for (x, y) in st.teq:
+    for (x, y) in st.teq[n_teq0:]:
         leaves_of(x, out)
         leaves_of(y, out)
     for (key, pol) in st.unk:
@@ -1439,13 +1439,13 @@ DEP_TABLE = {
 }
 
 
-def dep_check(c, a, outs, path):
+def dep_check(c, a, outs, path, n_facts0=0, n_teq0=0):
     for suffix, needed in DEP_TABLE.items():
         if not path.endswith(suffix):
             continue
         seen = set()
         for (st, v, ctl) in outs:
-            seen |= outcome_deps(st, v)
+            seen |= outcome_deps(st, v, n_facts0, n_teq0)
         for leafname in needed:
             ok = leafname in seen
             c.count += 1
@@ -1460,7 +1460,7 @@ _old_run = run
 def run(sc, res):
     _old_run(sc, res)
     c = Ctx(sc, res)
-    dep_check(c, deref_args(res), res["outs"], res["fn"]["path"])
+    dep_check(c, deref_args(res), res["outs"], res["fn"]["path"], res.get("n_facts0", 0), res.get("n_teq0", 0))
 
 
 # ------------------------------------------------------------------ deletion (C11 COVER on the open level)
